@@ -159,7 +159,9 @@ def run(ctx):
             # ... with the match itself, not with the lines it lies on: resuming at the end of the *line* skips every match
             # that starts on the rest of that line (and may reach into following lines, which inversion then reports)
             LOC = "grep_searcher::lines::locate"
-            nopart = lambda e: e.k == "partial"    # field writes into *self are not part of the value passed
+            # field writes into *self are not part of the value passed; neither is what a predicate closure captured
+            # (`find()?.filter(|next| next.start() < line.end())` yields find()'s match or nothing)
+            nopart = lambda e: e.k in ("partial", "closure")
             widened = [c for c in adv if mentions_call(ebg.operand(c.args[1]), LOC, stop=nopart)]
             if adv and not widened:
                 r.ok("exact|" + name, "advance() receives the match, not its line range", fn=g)
